@@ -22,7 +22,7 @@ ASSUMPTIONS = ["the scheduler serialises real threads; a race whose window lies 
                "oracle (5) (screen = printed lines in file order + last frame) is evaluated for Live displays whose "
                "frames carry unique tokens; see the known finding about the print-versus-refresh window",
                "a wall-clock watchdog (30 s per schedule) firing is inconclusive"]
-REQUIRED = ["mon.console_clean_after_stop", "mon.record_conservation_across_clearing_exports", "mon.redirected_prints", "mon.log_call_site", "mon.nonterminal_final_frame", "mon.schedules", "mon.exactly_once_contiguous", "mon.capture_isolation", "mon.record_order",
+REQUIRED = ["mon.lock_holders_only_programs", "mon.console_clean_after_stop", "mon.record_conservation_across_clearing_exports", "mon.redirected_prints", "mon.log_call_site", "mon.nonterminal_final_frame", "mon.schedules", "mon.exactly_once_contiguous", "mon.capture_isolation", "mon.record_order",
             "mon.deadlock_detector", "mon.screen_replay", "mon.context_switches"]
 MIN_NONTRIVIAL = {"quick": 800, "thorough": 50000}
 
@@ -174,6 +174,22 @@ def wl_schedules(ctx, rng, case_no):
     # documented to be idempotent), from a stream of its own so that the other cases stay what they were
     import random as _random
     r2 = _random.Random("late/%d" % sseed)
+    if display.startswith("live") and terminal and r2.random() < 0.3:
+        # programs made ONLY of operations that hold the display lock (refresh, update with an immediate refresh) from
+        # two or three threads: nothing in them can open the known print-versus-refresh window, so every screen
+        # mismatch is a violation - this is where a refresh that has lost its lock shows
+        fid = 100
+        prog = []
+        for th in range(r2.choice([2, 2, 3])):
+            ops = []
+            for _ in range(r2.randint(1, 3)):
+                if r2.random() < 0.5:
+                    ops.append(["refresh"])
+                else:
+                    fid += 1
+                    ops.append(["update", "F%d_%d" % (th, fid), r2.choice([1, 2, 3, 5]), True])
+            prog.append(ops)
+        ctx.count("mon.lock_holders_only_programs")
     late = display != "none" and r2.random() < 0.2
     if late:
         starters = r2.sample(range(len(prog)), min(len(prog), r2.choice([2, 2, 3])))
